@@ -25,6 +25,8 @@ def run(cmd, cwd, timeout=900, env=env):
 
 # worktree: clean, then apply the patch
 run("git checkout -q -- . ", wt)
+head = subprocess.run("git -C /repo rev-parse HEAD", shell=True, capture_output=True, text=True).stdout.strip()
+run(f"git checkout -q --detach {head}", wt)   # the worktree follows /repo's current HEAD (fix: commits made since)
 p = run(f"git apply {patch}", wt)
 if p.returncode != 0:
     # /repo has moved on (fix: commits) since the change was written: three-way apply, then re-export the patch
